@@ -2,9 +2,9 @@ SPECIFICATION Spec
 CONSTANT Cfg <- MCCfg5
 CONSTANT Limits = {1, 2, 3}
 CONSTANT MinEdges = 4
-CONSTANT MaxEdges = 4
-CONSTANT Sample = TRUE
-CONSTANT LegalOnly = FALSE
+CONSTANT MaxEdges = 10
+CONSTANT Sample = FALSE
+CONSTANT LegalOnly = TRUE
 CONSTRAINT Bounded
 VIEW View
 INVARIANT Protocol
